@@ -42,7 +42,7 @@ def generate(tier, seed):
             kp = ref.pval(sp["reactions"][0]["fields"]["k"], {}) * max(V, 1.0)
             m = sp["x0"]["A"] + kp * tp[-1]
             cap = int(m + 12 * math.sqrt(m) + 12)
-        cases.append({"kind": "constV", "template": name, "spec": sp, "tp": tp, "V": V, "cap": cap, "runs": runs, "stage": 1,
+        cases.append({"kind": "constV", "template": name, "spec": sp, "tp": tp, "V": V, "cap": cap, "runs": runs, "stage": 1, "safe_ok": "safe" in sims,
                       "seed": util.seed64(PROPERTY, tier, seed, "cv%d" % i)})
     ng = 60 if tier == "quick" else 2000
     for j in range(ng):
@@ -80,7 +80,7 @@ def run_constV(case):
     import numpy as np
     from vlib import cme
     from bioscrape.types import Volume
-    from bioscrape.simulator import ModelCSimInterface, VolumeSSASimulator, py_simulate_model
+    from bioscrape.simulator import ModelCSimInterface, SafeModelCSimInterface, VolumeSSASimulator, py_simulate_model
     import bioscrape.random as brandom
     C = Counter()
     sp = case["spec"]
@@ -99,13 +99,16 @@ def run_constV(case):
         for s in set(da) | set(db):
             vdiff = max(vdiff, abs(da.get(s, 0) - db.get(s, 0)))
     out = {}
-    for sim in ("volume_ssa", "psm_volume"):
-        n = case["runs"] if sim == "volume_ssa" else max(2000, case["runs"] // 25)
+    # less-travelled routes to the same law: the safe interface under the volume simulator, a Volume object / the safe flag /
+    # the delay-capable volume simulator (the model has no delays) through py_simulate_model
+    sims = ["volume_ssa", "psm_volume", "psm_delay_volume", "psm_volume_object"] + (["safe_volume_ssa", "psm_safe_volume"] if case.get("safe_ok") else [])
+    for sim in sims:
+        n = case["runs"] if sim == "volume_ssa" else (case["runs"] // 5 if sim == "safe_volume_ssa" else max(2000, case["runs"] // 25))
         X = np.empty((n, len(tp), len(cols)))
-        seeds = util.splitmix64(case["seed"] + 7919 * case["stage"] + (13 if sim == "psm_volume" else 0))
+        seeds = util.splitmix64(case["seed"] + 7919 * case["stage"] + 13 * sims.index(sim))
         volbad = None
-        if sim == "volume_ssa":
-            itf = ModelCSimInterface(M)
+        if sim in ("volume_ssa", "safe_volume_ssa"):
+            itf = ModelCSimInterface(M) if sim == "volume_ssa" else SafeModelCSimInterface(M)
             itf.py_set_dt(tp[1] - tp[0])
             S = VolumeSSASimulator()
             for i in range(n):
@@ -121,7 +124,17 @@ def run_constV(case):
             for i in range(n):
                 if i % 500 == 0:
                     brandom.py_seed_random(next(seeds) or 1)
-                X[i] = py_simulate_model(tp, Model=M, stochastic=True, volume=V, return_dataframe=False).py_get_result()
+                if sim == "psm_volume_object":
+                    vo = Volume()
+                    vo.py_set_volume(V)
+                    kw = dict(volume=vo)
+                elif sim == "psm_delay_volume":
+                    kw = dict(volume=V, delay=True)
+                elif sim == "psm_safe_volume":
+                    kw = dict(volume=V, safe=True)
+                else:
+                    kw = dict(volume=V)
+                X[i] = py_simulate_model(tp, Model=M, stochastic=True, return_dataframe=False, **kw).py_get_result()
         idx = cme.state_indices(X, cols, refd)
         r = cme.test_law(idx, refd, tp)
         r["n"] = n
